@@ -162,6 +162,7 @@ type Machine struct {
 	patterns      map[string]*regexp.Regexp
 	patternOrder  []string
 	jnTexts       map[*smt.Term]*Node
+	extraModel    []*smt.Term
 	Env           map[string]string
 
 	JSONUnmarshalHook func(m *Machine, args []Value) (Value, bool)
